@@ -116,7 +116,16 @@ def enclosing_item(path, line):
         if m: return m.group(2)
     return None
 
-def check_proofs(prop, timeout=1500):
+def run_coqchk(prop, timeout=2400):
+    """the independent checker on the property's compiled theorems and everything they depend on: (ok, summary)"""
+    rc, out, _ = sh(["timeout", str(timeout), "coqchk", "-o", "-silent", "-Q", "theories", "FV", "FV.%s.Props" % prop], cwd=COQ, timeout=timeout + 30)
+    tail = out[-1500:]
+    m = re.search(r"\* Axioms:(.*?)\n\s*\n", out + "\n\n", re.S)
+    axioms = m.group(1).strip() if m else None
+    ok = rc == 0 and axioms == "<none>" and "type-in-type: <none>" in out and "unsafe (co)fixpoints: <none>" in out and "positivity is assumed: <none>" in out
+    return ok, {"rc": rc, "axioms": axioms, "tail": tail if not ok else ""}
+
+def check_proofs(prop, timeout=1500, coqchk=False):
     """compile the property's Props.v (and everything it depends on); returns dict"""
     res = {"ok": False, "theorems": [], "failed_at": None, "log_tail": "", "axioms": {}, "wall_s": 0.0}
     t0 = time.time()
@@ -157,6 +166,10 @@ def check_proofs(prop, timeout=1500):
                     bad.append("theorem %s depends on disallowed axiom %s" % (t["name"], n))
     hits = grep_gate()
     if hits: bad.append("forbidden tokens: " + "; ".join(hits[:10]))
+    if coqchk and not bad:
+        okc, summ = run_coqchk(prop)
+        res["coqchk"] = summ
+        if not okc: bad.append("coqchk does not confirm the compiled theorems: %r" % (summ,))
     if bad:
         res["failed_at"] = {"file": "theories/%s/Props.v" % prop, "line": None, "item": "; ".join(bad)}
     res["ok"] = not bad
